@@ -290,8 +290,26 @@ def r024(ctx):
     # _extract_result: callable metrics are unwrapped
     rx = A2.run(MF + "._extract_result", cls_ctx=MF)
     u = rx.params["underlying_result"]
-    want = mk("ite", A2.entry(rx, "self._user_supplied_callable"),
-              mk("ite", A2.entry(rx, "self.control_levels or no_control_levels"), A2.entry(rx, "underlying_result.iloc[:, 0]"),
-                 A2.entry(rx, "underlying_result.iloc[0]")), u)
-    ctx.ob("R02.4", rx.func, None, A2.eq(rx.ret, want), "_extract_result unwraps the single column (or cell) for a bare callable "
-           "and is the identity for dict metrics", construct="_extract_result")
+    usc = A2.entry(rx, "self._user_supplied_callable")
+    cl = A2.entry(rx, "self.control_levels")
+    ncl = rx.params["no_control_levels"]
+    bad = []
+    for uv in (True, False):
+        for cv in (None, ["c"]):
+            for nv in (True, False):
+                try:
+                    got = specialise(rx.ret, {usc: uv, cl: cv, ncl: nv})
+                except (Unmodelled, Raised) as ex:
+                    bad.append(f"not modelled: {ex}")
+                    continue
+                if not uv:
+                    want = u
+                elif cv or nv:
+                    want = A2.entry(rx, "underlying_result.iloc[:, 0]")
+                else:
+                    want = A2.entry(rx, "underlying_result.iloc[0]")
+                if not A2.eq(got, want):
+                    bad.append(f"callable={uv} control={cv} no_control_levels={nv}: {A2.show(got, 80)}")
+    ctx.exhaustive_spaces.append("_extract_result: 8 cells of (callable metric, control levels, no_control_levels)")
+    ctx.ob("R02.4", rx.func, None, not bad, "_extract_result unwraps the single column (or cell) for a bare callable and is the "
+           "identity for dict metrics" if not bad else "; ".join(bad[:3]), construct="_extract_result")
